@@ -113,6 +113,12 @@ __start__:
                 reset();
                 goto __force_restart__;
             }
+
+            // START == STOP: маркер при пустой строке - это начало пакета
+            // (предыдущий маркер был концом), иначе приёмник навсегда
+            // остаётся в противофазе.
+            if (sline_empty(&line))
+                goto __continue__;
         }
         
         if (c == ctx.GSTUFF_STOP) 
